@@ -61,19 +61,16 @@ func firstDiff(a, b string) string {
 	return ""
 }
 
-// hasOtherwiseFirstInElse reports the shape of open finding C01-1.
-func hasOtherwiseFirstInElse(p *gen.Program) bool {
+// hasOtherwiseInElse reports the shape of open finding C01-1: an `otherwise`
+// directly in an else block.
+func hasOtherwiseInElse(p *gen.Program) bool {
 	var walk func(ss []*gen.Stmt) bool
 	walk = func(ss []*gen.Stmt) bool {
 		for _, s := range ss {
 			if s.Op == "cond" && s.HasEls {
-				sawCond := false
 				for _, e := range s.Else {
-					if e.Op == "otherwise" && !sawCond {
+					if e.Op == "otherwise" {
 						return true
-					}
-					if e.Op == "cond" || e.Op == "otherwise" || e.Op == "deco" {
-						sawCond = true
 					}
 				}
 			}
@@ -92,6 +89,33 @@ func hasOtherwiseFirstInElse(p *gen.Program) bool {
 		}
 	}
 	return false
+}
+
+// hasRecursiveDecorator reports the shape of open finding C01-5: a decorator
+// used inside its own decorated block.
+func hasRecursiveDecorator(p *gen.Program) bool {
+	var walk func(ss []*gen.Stmt, active map[string]bool) bool
+	walk = func(ss []*gen.Stmt, active map[string]bool) bool {
+		for _, s := range ss {
+			if s.Op == "deco" {
+				if active[s.Deco] {
+					return true
+				}
+				active[s.Deco] = true
+				r := walk(s.Then, active)
+				delete(active, s.Deco)
+				if r {
+					return true
+				}
+				continue
+			}
+			if walk(s.Then, active) || walk(s.Else, active) {
+				return true
+			}
+		}
+		return false
+	}
+	return walk(p.Stmts, map[string]bool{})
 }
 
 // pinsAllTypes reports whether every metric of the program has a write with an
